@@ -26,6 +26,14 @@ let run_esc (a : Sx.t list) : string =
     (match out with Some o -> hex (encode o) | None -> "no-such-kind")
   | _ -> "badcase"
 
+let run_strreplace (a : Sx.t list) : string =
+  match a with
+  | [p; r; s] ->
+    let d x = bs_of_ints (Sx.bytes x) in
+    if not (Utf8.utf8_valid (d p) && Utf8.utf8_valid (d r) && Utf8.utf8_valid (d s)) then "not-utf8" else
+    hex (encode (EscapeModel.replace (Utf8.decode (d p)) (Utf8.decode (d r)) (Utf8.decode (d s))))
+  | _ -> "badcase"
+
 let show_ev (e : ShellLex.ev) : string =
   let n c = Z.format "%x" (z_of_n c) in
   match e with
@@ -79,6 +87,7 @@ let () =
            match Sx.head sx with
            | "esc" -> run_esc (Sx.args sx)
            | "lexport" -> run_lexport (Sx.args sx)
+           | "strreplace" -> run_strreplace (Sx.args sx)
            | m -> "unknown-mode " ^ m
          with e -> "driver-error " ^ Printexc.to_string e in
        Printf.printf "%d\t%s\n" !i res;
